@@ -62,7 +62,14 @@ impl Prod {
     /// `rich_treasury`: small holdings for everybody but the fee payer, so that the treasury
     /// outgrows the looping outputs and rebroadcasts carry a treasury payout
     pub fn new_world(g: u64, hb: u64, staking: Currency, rich_treasury: bool) -> Result<Prod, String> {
+        Self::new_with(g, hb, staking, rich_treasury, 8)
+    }
+
+    /// `prune`: prune_after_blocks of producer and twin (1 = every block below the tip drops its
+    /// transactions from memory and is reloaded from disk when needed)
+    pub fn new_with(g: u64, hb: u64, staking: Currency, rich_treasury: bool, prune: u64) -> Result<Prod, String> {
         let mut cfg = Cfg::new(g, hb);
+        cfg.consensus.prune_after_blocks = prune;
         cfg.consensus.default_social_stake = staking;
         cfg.consensus.default_social_stake_period = 2;
         let mut w = World::new(cfg.clone());
